@@ -16,7 +16,14 @@ class Hang(Exception):
 
 
 class Sched:
-    def __init__(self, seed=0, choices=None, max_steps=20000, pct_depth=0):
+    def __init__(self, seed=0, choices=None, max_steps=20000, pct_depth=0, preempt=None):
+        """`preempt` (a dict: decision index -> k) switches to the non-preemptive policy used by the systematic
+        exploration: the running thread keeps the baton while it is enabled, otherwise the first enabled
+        thread (in spawn order) gets it - except at the listed decision indices, where the k-th *other*
+        enabled thread is chosen.  `branching` records, per decision, how many others were enabled."""
+        self.preempt = preempt
+        self.branching = []
+        self.last = None
         self.rng = random.Random(seed)
         self.vt = 0.0
         self.threads = {}        # name -> record
@@ -92,6 +99,15 @@ class Sched:
                 if c in cands:
                     return c
             return cands[0]
+        if self.preempt is not None:
+            d = len(self.branching)
+            others = [n for n in cands if n != self.last]
+            self.branching.append(len(others) if self.last in cands else max(0, len(cands) - 1))
+            if d in self.preempt:
+                pool = others if self.last in cands else cands[1:]
+                if pool:
+                    return pool[self.preempt[d] % len(pool)]
+            return self.last if self.last in cands else cands[0]
         if self.pct_depth:
             if self.change_at and self.steps >= self.change_at[0]:
                 self.change_at.pop(0)
@@ -110,6 +126,7 @@ class Sched:
             c = self._candidates()
             if c:
                 n = self._choose(c)
+                self.last = n
                 self.trace.append(n)
                 r = self.threads[n]
                 r['enabled'] = None
